@@ -19,7 +19,8 @@ LEVEL_TEXT = ("For the 8 type-1 operations and the 3 shutter operations every ca
 RULE = ("case = (operation, arguments, device id, key, session, time, zone); accepted cases compare frames byte-for-byte, "
         "rejected cases (timer >= 2^32 s, timedelta outside [1h,24h), names < 2 chars or > 32 bytes, malformed clock, duplicate "
         "days) must raise and write no command frame. Non-trivial = accepted case with a non-default argument or any "
-        "rejected case; distinct by (kind, arguments).")
+        "rejected case; distinct by (kind, arguments)."
+        ' Also: create_schedule on the day before/of/after every UTC-offset change of 7 host zones, exhaustive small domains (positions 0..100, slots 0..7, boundary minutes and auto-shutdown values), host zones for every operation.')
 ASSUMPTIONS = [
     "reference byte tables (ref/wire.py): 6 templates pinned by the repository's 8 literal CRC test vectors, the other 9 are a golden layout transcribed once from the pinned commit",
     "a one-character name that needs >= 2 bytes, clock strings with extra components and negative minutes are left unspecified",
